@@ -361,6 +361,12 @@ func suiteStore(t *testing.T, cfg cfgT) {
 				}
 				code, _ := rest(s.e.write, "PATCH", "/admin/relation-tuples", []byte("["+strings.Join(ins, ",")+"]"))
 				out.emit(fmt.Sprintf("patch %d %s", len(ins), strings.Join(insItems, " ")), s.obs(code, ""))
+				// list what was written in one page: more than 100 relationships that share one subject (and one namespace):
+				// every one of them comes back with the strings it was written with
+				lp := [][2]string{{"namespace", stNamespaces[0]}}
+				lcode, llist := s.listREST(lp, strconv.Itoa(bigPage), "")
+				out.emit(fmt.Sprintf("listrest %s %d -", fmtPairs(lp), bigPage), s.obs(lcode, llist))
+				steps++
 				code, _ = rest(s.e.write, "PATCH", "/admin/relation-tuples", []byte("["+strings.Join(del, ",")+"]"))
 				out.emit(fmt.Sprintf("patch %d %s", len(del), strings.Join(delItems, " ")), s.obs(code, ""))
 				out.stat("bulk")
